@@ -125,7 +125,7 @@ func genC15(r *rng, thorough bool) {
 			}
 		}
 		for _, old := range []string{"a", "b", "ab", "X", ".", "*", "", " ", "é", "abc", "aa", "\\d", "[a-z]"} {
-			for _, nw := range []string{"", "Z", "<>", "aa", "\\1"} {
+			for _, nw := range []string{"", "Z", "<>", "aa", "\\1", "$1", "$$"} {
 				if thorough || r.chance(1, 3) {
 					gen("str ssub " + h + " " + hx(old) + " " + hx(nw))
 					gen("str gssub " + h + " " + hx(old) + " " + hx(nw))
@@ -133,7 +133,7 @@ func genC15(r *rng, thorough bool) {
 			}
 		}
 		for _, re := range []string{"a", "l+", "[a-c]", "^h", "o$", "(a)(b)?", "([a-z]+) ([A-Za-z]+)", "\"L\"i", "\"H.L\"i", "b.", "[0-9]+", "x|y", "(.)\\.", "a?b", "[^a-z]", "\\.", "c*d", "(ab)+", "[[:alpha:]]+", "\\d+"} {
-			for _, rep := range []string{"", "X", "<\\0>", "\\2-\\1", "[\\1]", "\\9"} {
+			for _, rep := range []string{"", "X", "<\\0>", "\\2-\\1", "[\\1]", "\\9", "$1", "$$", "${1}x", "$US", "a$0b\\1"} {
 				if thorough || r.chance(1, 3) {
 					gen("str sub " + h + " " + hx(re) + " " + hx(rep))
 					gen("str gsub " + h + " " + hx(re) + " " + hx(rep))
